@@ -94,7 +94,7 @@ def build(repo, features):
 
     def add(name, target_path, body, tags, target, checks, attrs='', **kw):
         R.append('%s#[kani::proof_for_contract(%s)]\nfn %s() {\n%s\n}\n' % (attrs, target_path, name, body))
-        d = {'name': name, 'tags': tags, 'target': target, 'checks': checks, 'expect': 'pass', 'contract': True}
+        d = {'name': name, 'tags': tags, 'target': target, 'checks': checks, 'expect': 'pass', 'contract': True, 'paired': True, 'covers': ['fn ' + target.split('::')[-1].split(' ')[0]] if '::' in target and 'as core::convert' not in target else []}
         d.update(kw)
         H.append(d)
 
